@@ -254,10 +254,11 @@ pub fn miri_targeted_stage(ctx: &Ctx, build_dir: &Path) -> (u64, Option<Value>, 
 /// oracle in the default, compact and alloc configurations.  Quick: constants + 4 inputs; thorough: 150.
 /// Returns (violations, report, harness_error).
 pub fn l32_stage(ctx: &Ctx, build_dir: &Path) -> (u64, Option<Value>, Option<String>) {
-    if !matches!(ctx.id.as_str(), "C05" | "C14") || (ctx.id == "C05" && ctx.tier.name() == "quick") {
+    if !matches!(ctx.id.as_str(), "C05" | "C14" | "C18") || (ctx.id == "C05" && ctx.tier.name() == "quick") {
         return (0, None, None);
     }
-    if std::env::var("MLV_SKIP_FUZZ").is_ok() && ctx.id != "C14" {
+    let sub = if ctx.id == "C18" { "U32" } else { "L32" };
+    if std::env::var("MLV_SKIP_FUZZ").is_ok() && ctx.id == "C05" {
         return (0, None, None);
     }
     let harness = ctx.verif_dir.join("harness");
@@ -265,7 +266,7 @@ pub fn l32_stage(ctx: &Ctx, build_dir: &Path) -> (u64, Option<Value>, Option<Str
     let mut cmd = Command::new("cargo");
     cmd.current_dir(&harness)
         .args(["+nightly", "miri", "run", "-q", "--target", "i686-unknown-linux-gnu", "-p", "mlv", "--bin", "mlv-miri", "--"])
-        .args(["L32", &count.to_string(), &ctx.seed.to_string()])
+        .args([sub, &count.to_string(), &ctx.seed.to_string()])
         .env("MIRIFLAGS", "-Zmiri-tree-borrows -Zmiri-disable-isolation -Zmiri-no-extra-rounding-error")
         .env("CARGO_TARGET_DIR", build_dir.join("miri"))
         .env("CARGO_NET_OFFLINE", "true")
@@ -283,7 +284,7 @@ pub fn l32_stage(ctx: &Ctx, build_dir: &Path) -> (u64, Option<Value>, Option<Str
     let report = json!({"engine": "Miri, --target i686-unknown-linux-gnu (32-bit limbs), tree borrows", "generated_inputs": count, "steps_executed": cases,
                         "wall_s": start.elapsed().as_secs_f64(), "ok": out.status.success(),
                         "samples": stdout.lines().filter(|l| l.starts_with("MIRI-CASE")).take(6).collect::<Vec<_>>() });
-    if out.status.success() && stdout.contains("MIRI-OK L32") && stdout.contains("pointer width = 32") {
+    if out.status.success() && stdout.contains(&format!("MIRI-OK {sub}")) && stdout.contains("pointer width = 32") {
         return (0, Some(report), None);
     }
     if let Some(v) = stdout.lines().find(|l| l.starts_with("MIRI-VIOLATION")) {
@@ -309,7 +310,7 @@ pub fn l32_stage(ctx: &Ctx, build_dir: &Path) -> (u64, Option<Value>, Option<Str
 /// For properties that are not process-supervised: run the registered fuzz
 /// campaigns after the in-process check and merge them into the evidence file.
 pub fn fuzz_poststep(ctx: &Ctx, code: i32) -> i32 {
-    let wants_l32 = matches!(ctx.id.as_str(), "C05" | "C14");
+    let wants_l32 = matches!(ctx.id.as_str(), "C05" | "C14" | "C18");
     if (fuzz_targets_for(&ctx.id).is_empty() && !wants_l32) || code != 0 {
         return code;
     }
